@@ -229,7 +229,7 @@ def run(chk, repo, tier):
 
 
 def _ps_rules(chk, repo):
-    f, paths, _ = analyse(repo, 'wfe.power_spectrum')
+    f, paths, _ = analyse(repo, 'wfe.power_spectrum', facts={nf.attr(S('mask'), 'ndim').single_atom(): nf.Poly.const(2)}, unroll=True)
     rets = returns(paths)
     if not rets:
         raise AnalysisError('power_spectrum: no returning path')
